@@ -36,6 +36,10 @@ CLAIMS.update({
  "C13": ("Binary codec round trips decode(encode(x)) == x for every field value: named identifiers, polling strategies (all five kinds, any value; an arbitrary 9-byte frame decodes to an error or to a value that re-encodes to the same bytes), the three partitioning kinds as they appear inside a send frame, CreateStream (client or server assigned id) and DeleteStream. A narrow slice of C13.",
          "sdk BytesSerializable impls only; NOT covered: commands with several identifiers / numeric identifiers (thorough tier, out of memory in this setup), SendMessages with headers, responses (mapper.rs), journal and on-disk encodings, HTTP/JSON, the effect of malformed frames on other connections"),
 })
+CLAIMS.update({
+ "C04": ("Log-tail clause only: one step of the segment-log scan (SegmentLogReader::read_next_batch, the function every read and restart scan is built on) at each position the scan can reach in a two-record log, for EVERY surviving file length / published size in [0,64] (every torn length of either record, header or payload) and all field and payload values: a record is returned iff it lies completely inside the size, unchanged, with the byte count the scan advances by; a torn trailing record is neither served nor an error nor a panic; nothing is read beyond the size even when the file holds more bytes.",
+         "de-asynced twin on the model FS (strict mode: a read past the end is a failure); read_at stubbed by a contract-equal version over a typed buffer; the scan loops around the step are read, not decided; index/offset/state-file tails, segment and partition load, write ordering, no-wait confirmation and fsync are NOT covered (DESIGN.md 0.3, 3/C04)"),
+})
 PENDING = {
  "C06": "harness file wip/c06_catalogue.rs exists (consumer-group catalogue: unique ids/names, delete, id reuse) but CBMC aborts / exceeds the caps on it; not registered",
  "C08": "harness file wip/c08_consumer_groups.rs exists (assignment exclusivity and balance, rotation) but even a fully concrete re-assignment needs > 6 min of SAT time through the heap-allocated member list; not registered",
